@@ -2,7 +2,7 @@
 from __future__ import annotations
 
 import ast
-from typing import Dict, List, Tuple
+from typing import Any, Dict, List, Tuple
 
 from .. import api_model as A
 from .. import frames as F
@@ -50,6 +50,8 @@ def writer_sweep(prog: Program, rep: Report) -> None:
                     rep.ok("R1.1", "writer store", where)
                 elif isinstance(par, (ast.BoolOp, ast.If, ast.UnaryOp)) or (isinstance(par, ast.Tuple) and isinstance(par.ctx, ast.Store)):
                     rep.ok("R1.1", "writer test/store", where)
+                elif local_alias_is_enumerable(node, par, parents):
+                    rep.ok("R1.1", "writer local alias", where, "aliased to a local that is only tested or used through close/wait_closed/is_closing in the same function")
                 else:
                     rep.bad("R1.1", "writer escapes", where, f"stream writer escapes into `{ast.unparse(par) if par is not None else '?'}`: writes can no longer be enumerated")
             if m.in_package and isinstance(node, ast.Call) and isinstance(node.func, ast.Attribute) and node.func.attr in SEND_METHODS:
@@ -58,6 +60,28 @@ def writer_sweep(prog: Program, rep: Report) -> None:
                     rep.bad("R1.1", f"foreign sender .{node.func.attr}", f"{m.relpath}:{node.lineno}",
                             f"`{ast.unparse(node)[:80]}` sends bytes outside writer.write(unhexlify(signed))")
     rep.analysed["write_sites"] = n_write_sites
+
+
+def local_alias_is_enumerable(node: ast.AST, par: Any, parents: Dict[ast.AST, ast.AST]) -> bool:
+    """`w = self._writer` inside a function where every later use of `w` is a truth test or a call of
+    close / wait_closed / is_closing (never write, never passed on, never returned or stored)."""
+    if not (isinstance(par, ast.Assign) and len(par.targets) == 1 and isinstance(par.targets[0], ast.Name) and par.value is node):
+        return False
+    name = par.targets[0].id
+    fn = par
+    while fn is not None and not isinstance(fn, (ast.FunctionDef, ast.AsyncFunctionDef)):
+        fn = parents.get(fn)
+    if fn is None:
+        return False
+    for n in ast.walk(fn):
+        if isinstance(n, ast.Name) and n.id == name and isinstance(n.ctx, ast.Load):
+            p = parents.get(n)
+            if isinstance(p, ast.Attribute) and p.attr in ("close", "wait_closed", "is_closing") and isinstance(parents.get(p), ast.Call) and parents[p].func is p:
+                continue
+            if isinstance(p, (ast.If, ast.BoolOp, ast.UnaryOp, ast.While)) or (isinstance(p, ast.Compare) and all(isinstance(c_, ast.Constant) and c_.value is None for c_ in p.comparators)):
+                continue
+            return False
+    return True
 
 
 def run(prog: Program, rep: Report, tier: str) -> None:
